@@ -690,8 +690,8 @@ fn c03(r: &Runner) {
         let al: &[u64] = if r.is_thorough() {
             if n <= 3 { A8 } else if n <= 4 { A5 } else { A3 }
         } else if n <= 2 { A8 } else if n <= 3 { A5 } else { A3 };
-        let base = limb_product(bits, al).unwrap_or_else(|| runs(bits, RUN_YS));
-        let base = if base.len() > 700 { limb_product(bits, A3).unwrap_or_else(|| runs(bits, RUN_YS)) } else { base };
+        let base = if SWEEP { pick(bits, 90, &[]).0 } else { limb_product(bits, al).unwrap_or_else(|| runs(bits, RUN_YS)) };
+        let base = if base.len() > 700 { limb_product(bits, A3).filter(|b| b.len() <= 700).unwrap_or_else(|| pick(bits, 700, &[]).0) } else { base };
         let cases = derived_div(bits, &base);
         r.universe(&format!("n=q*d+r+delta over {} base values", base.len()), bits, cases.len(), |i, l| {
             let args = [vu(&cases[i].0), vu(&cases[i].1)];
@@ -700,7 +700,7 @@ fn c03(r: &Runner) {
                 exec(l, bits, op, &args);
             }
         });
-        let gc = golden_div_cases(bits, if r.is_thorough() { 48 } else { 20 });
+        let gc = golden_div_cases(bits, if SWEEP { 8 } else if r.is_thorough() { 48 } else { 20 });
         r.universe(&format!("n=q*d+r with q, d assembled from the structureless alphabet G ({} cases)", gc.len()), bits, gc.len(), |i, l| {
             let args = [vu(&gc[i].0), vu(&gc[i].1)];
             l.states(1);
@@ -794,14 +794,13 @@ fn c10(r: &Runner) {
     }
     let ws: Vec<usize> = if SWEEP { WIDTHS.iter().copied().filter(|w| *w > 12).collect() } else if r.is_thorough() { vec![63, 64, 65, 127, 128, 129, 191, 192, 193, 255, 256, 257, 320, 512] } else { vec![64, 65, 128, 129, 192, 256, 257] };
     for bits in ws {
-        let n = nlimbs(bits);
-        let al: &[u64] = if n <= 1 { A8 } else if n <= 2 { A5 } else if n <= 4 { A3 } else { &[0, u64::MAX] };
-        let al: &[u64] = if !r.is_thorough() && n == 2 { A4 } else if !r.is_thorough() && n >= 4 { &[0, u64::MAX] } else { al };
-        let mut u = limb_product(bits, al).unwrap();
+        // all triples: the universe is budgeted so that its cube stays enumerable
+        let budget = if SWEEP { 16 } else if r.is_thorough() { 150 } else { 60 };
+        let (mut u, ud) = pick(bits, budget, &[]);
         u.extend(pprime(bits));
         u.sort_by(|a, b| a.iter().rev().cmp(b.iter().rev()));
         u.dedup();
-        triples(r, &format!("(L({bits};|A|={})+P')^3", al.len()), bits, &u, &u, &u, &[Op::add_mod, Op::mul_mod, Op::pow_mod]);
+        triples(r, &format!("({ud}+P')^3 = {}^3", u.len()), bits, &u, &u, &u, &[Op::add_mod, Op::mul_mod, Op::pow_mod]);
         let (u2, d2) = bin_universe(r, bits);
         pairs(r, &format!("({d2})^2"), bits, &u2, &u2, &[Op::reduce_mod, Op::inv_mod]);
     }
